@@ -51,6 +51,9 @@ type Op struct {
 
 type Scenario struct {
 	Ops  []Op
+	Stream bool // the 'A' results are fed as benchmark-format text through a real benchfmt.Reader and
+	// projected as they are scanned, WITHOUT Clone (the Reader reuses one Result and overwrites
+	// config values in place); the case line carries the results the Reader actually delivered
 	S    bool // S-eligible: all parsing precedes all projecting, no failing parse, duplicate-free fixed lists, results pass the implied filters
 	Tags []string
 }
@@ -162,6 +165,9 @@ func decScenario(line string) Scenario {
 	ops, _ := hx.Field(line, "ops")
 	s, _ := hx.Field(line, "s")
 	sc.S = s == "1"
+	if st, _ := hx.Field(line, "stream"); st == "1" {
+		sc.Stream = true
+	}
 	if t, ok := hx.Field(line, "tag"); ok {
 		sc.Tags = strings.Split(t, "+")
 	}
@@ -347,9 +353,67 @@ func numClass(v string) string {
 	return hx.F64(f)
 }
 
+// streamText renders the file configuration and names of the results as benchmark-format text:
+// a config line for every change (an empty value deletes a key), then the benchmark line.
+func streamText(results []ResT) string {
+	var sb strings.Builder
+	cur := map[string]string{}
+	for _, r := range results {
+		want := map[string]string{}
+		var order []string
+		for _, c := range r.Cfg {
+			if c.File && c.V != "" {
+				if _, ok := want[c.K]; !ok {
+					order = append(order, c.K)
+				}
+				want[c.K] = c.V
+			}
+		}
+		var del []string
+		for k := range cur {
+			if _, ok := want[k]; !ok {
+				del = append(del, k)
+			}
+		}
+		sort.Strings(del)
+		for _, k := range del {
+			fmt.Fprintf(&sb, "%s:\n", k)
+			delete(cur, k)
+		}
+		for _, k := range order {
+			if cur[k] != want[k] {
+				fmt.Fprintf(&sb, "%s: %s\n", k, want[k])
+				cur[k] = want[k]
+			}
+		}
+		units := r.Units
+		if len(units) == 0 {
+			units = []string{"ns/op"}
+		}
+		sb.WriteString("Benchmark" + r.Name + " 1")
+		for i, u := range units {
+			fmt.Fprintf(&sb, " %d %s", i+1, u)
+		}
+		sb.WriteString("\n")
+	}
+	return sb.String()
+}
+
+// resOf copies what the projections see of a Result delivered by the Reader.
+func resOf(rec *benchfmt.Result) ResT {
+	r := ResT{Name: string(rec.Name.Full())}
+	for _, c := range rec.Config {
+		r.Cfg = append(r.Cfg, CfgT{c.Key, string(c.Value), c.File})
+	}
+	for _, v := range rec.Values {
+		r.Units = append(r.Units, v.Unit)
+	}
+	return r
+}
+
 // runScenario runs sc against the real code and prints its lines.
 func runScenario(id int, sc Scenario, r *hx.Rand) {
-	var lines []string
+	var lines, stoLines []string
 	values := map[string]bool{}
 	crash := ""
 	tags := map[string]bool{}
@@ -371,8 +435,12 @@ func runScenario(id int, sc Scenario, r *hx.Rand) {
 		var perr []string
 		// all[i] = for the i-th 'A' operation, the key index per projection (lossless oracle)
 		var all [][]int
+		var live *benchfmt.Result // stream mode: the Reader's own Result, not a copy
 		project := func(ps *pstate, op byte, res ResT) []int {
-			rr := mkResult(res)
+			rr := live
+			if rr == nil {
+				rr = mkResult(res)
+			}
 			var ks []benchproc.Key
 			if op == 'V' {
 				ks = ps.p.ProjectValues(rr)
@@ -390,7 +458,35 @@ func runScenario(id int, sc Scenario, r *hx.Rand) {
 			}
 			return out
 		}
-		for _, op := range sc.Ops {
+		var reader *benchfmt.Reader
+		if sc.Stream {
+			var rs []ResT
+			for _, op := range sc.Ops {
+				if op.Kind == 'A' {
+					rs = append(rs, op.Res)
+				}
+			}
+			reader = benchfmt.NewReader(strings.NewReader(streamText(rs)), "stream.txt")
+		}
+		for oi := range sc.Ops {
+			op := sc.Ops[oi]
+			if sc.Stream && op.Kind == 'A' {
+				live = nil
+				for live == nil {
+					if !reader.Scan() {
+						fmt.Fprintf(os.Stderr, "harness: stream ended early (%v)\n", reader.Err())
+						os.Exit(3)
+					}
+					if rec, ok := reader.Result().(*benchfmt.Result); ok {
+						live = rec
+					} else if e, ok := reader.Result().(*benchfmt.SyntaxError); ok {
+						fmt.Fprintf(os.Stderr, "harness: stream text: %v\n", e)
+						os.Exit(3)
+					}
+				}
+				op.Res = resOf(live)
+				sc.Ops[oi].Res = op.Res
+			}
 			switch op.Kind {
 			case 'P', 'U':
 				text := specText(op.Specs)
@@ -589,6 +685,9 @@ func runScenario(id int, sc Scenario, r *hx.Rand) {
 				lines = append(lines, fmt.Sprintf("sobs %d p=%d flat=%s n=%d ids=%s get=%s less=%s sorts=%s nsp=%s",
 					id, pi, names(flat), n, ints(ids), get, less, sorts, nsp))
 			}
+			// Judged in EVERY scenario (also those outside the specification's precondition):
+			// Key.Less must be a strict total order on the distinct keys (C09.less_strict_total).
+			stoLines = append(stoLines, fmt.Sprintf("sobs %d p=%d sto=%s", id, pi, less))
 		}
 		hasResidue := false
 		for _, op := range sc.Ops {
@@ -648,6 +747,9 @@ func runScenario(id int, sc Scenario, r *hx.Rand) {
 	if sc.S {
 		s = "1"
 	}
+	if sc.Stream {
+		s += " stream=1"
+	}
 	hx.Printf("case %d ops=%s pn=%s s=%s tag=%s\n", id, opsS, pnS, s, strings.Join(tl, "+"))
 	if crash != "" {
 		hx.Printf("crash %d %s\n", id, strings.ReplaceAll(crash, "\n", " "))
@@ -663,6 +765,9 @@ func runScenario(id int, sc Scenario, r *hx.Rand) {
 				hx.Printf("sobs %d pn=%s\n", id, pnS)
 			}
 		}
+	}
+	for _, l := range stoLines {
+		hx.Printf("%s\n", l)
 	}
 }
 
